@@ -257,6 +257,15 @@ func (s *SCCP) eval1(v ssa.Value) AVal {
 		}
 	case *ssa.BinOp:
 		a, b := s.Eval(x.X), s.Eval(x.Y)
+		// a value known to be non-nil (an error a helper certainly returned) against nil
+		if (a.K == ANil && b.K == ATag && b.S == "nonnil") || (b.K == ANil && a.K == ATag && a.S == "nonnil") {
+			switch x.Op {
+			case token.EQL:
+				return aBool(false)
+			case token.NEQ:
+				return aBool(true)
+			}
+		}
 		if a.known() && b.known() && a.K == b.K {
 			switch x.Op {
 			case token.EQL:
